@@ -49,8 +49,16 @@ def run_chunked(kind, signal, cuts, as_float=True, per_step=None):
     det = new(kind)
     pos = 0
     sig = np.asarray(signal, dtype=np.float64) if as_float else signal
+    # every chunk is handed over in ONE re-used read buffer that is overwritten after the call (a streaming reader): a detector that keeps a
+    # reference to the caller's memory instead of a copy sees garbage in its cached tail
+    buf = np.empty(max(list(cuts) + [1]), dtype=np.float64) if as_float else None
     for c in cuts:
-        det.process(sig[pos:pos + c])
+        if buf is None:
+            det.process(sig[pos:pos + c])
+        else:
+            buf[:c] = sig[pos:pos + c]
+            det.process(buf[:c])
+            buf[:] = 7.7e77
         pos += c
         if per_step is not None:
             per_step(det)
